@@ -182,6 +182,8 @@ func GenImports(r *rng.R, cfg Cfg, skeletonLike bool) []Imp {
 		// bytes that mean something to a formatter, a shell or a glob but nothing to layercake
 		{"bind", cfg.Base + "/host/100%sure", "/mnt/50%"},
 		{"bind", cfg.Base + "/host/repos", "/mnt/p%2Fq[1]*"},
+		// an import on the build root itself (its cleaned mountpoint is "/")
+		{"bind", "$$self/generated", "/"},
 	}
 	if skeletonLike {
 		return append([]Imp{}, pool[0], pool[1], pool[2], pool[3], pool[5])
@@ -264,6 +266,25 @@ func GenForest(r *rng.R, cfg Cfg, maxLayers int, healthy bool) []LayerSpec {
 		sort.Strings(l.Files)
 		l.Files = dedupStrings(l.Files)
 		ls = append(ls, l)
+	}
+	// a sibling whose name is a parent's name plus "-...": '-' sorts before '/', so in every
+	// ordering by ancestry path the sibling lands between the parent and the parent's children
+	if r.Chance(1, 4) {
+		for _, p := range ls {
+			hasChild := false
+			for _, c := range ls {
+				if c.Base == p.Name {
+					hasChild = true
+				}
+			}
+			if hasChild {
+				sib := LayerSpec{Name: p.Name + r.Pick([]string{"-x", "-musl", "-"}), Base: p.Base, HasConfig: true, HasBuild: true,
+					Minimal: true, Mountpoints: true, HasWork: p.Base != "", HasUpper: p.Base != "",
+					Imports: GenImports(r, cfg, true)}
+				ls = append(ls, sib)
+				break
+			}
+		}
 	}
 	return ls
 }
